@@ -51,7 +51,8 @@ def parse_state(text):
     # text: "/\ a = ...\n/\ b = ..."
     toks=tokenize(text); p=P(toks); st={}
     while p.peek() is not None:
-        p.eat('/\\'); name=p.eat(); p.eat('='); st[name]=p.value()
+        if p.peek()=='/\\': p.eat('/\\')
+        name=p.eat(); p.eat('='); st[name]=p.value()
     return st
 def parse_dump(path):
     txt=open(path).read()
